@@ -10,7 +10,6 @@ import (
 	"strconv"
 
 	"github.com/ccbrown/api-fu/graphql/schema"
-	"github.com/ccbrown/api-fu/graphql/schema/introspection"
 
 	"verifharness/hx"
 )
@@ -433,17 +432,7 @@ func (h *harness) tieClone(bt *built, cl *schema.SchemaDefinition) *failure {
 }
 
 // tieRebuild compares the real rebuilt definition with the model's rebuild (introspect S ⊤).
-func (h *harness) tieRebuild(bt *built, s *schema.Schema, data []byte, reordered bool) *failure {
-	var result struct {
-		Schema introspection.SchemaData `json:"__schema"`
-	}
-	if err := json.Unmarshal(data, &result); err != nil {
-		return nil
-	}
-	def2, err := result.Schema.GetSchemaDefinition()
-	if err != nil {
-		return nil
-	}
+func (h *harness) tieRebuild(bt *built, s *schema.Schema, def2 *schema.SchemaDefinition, reordered bool) *failure {
 	x2, err := extract(def2, newIDAlloc(1))
 	if err != nil {
 		return corr("extract", "the rebuilt definition cannot be abstracted for the model: "+err.Error())
@@ -552,6 +541,39 @@ func matchWild(model, real hx.Sexp, path string, st *wildStats) string {
 			}
 		}
 	}
+	// an input-object value: the model's entries whose value it does not determine (a field filled
+	// in from a default that is itself not determined, e.g. one whose literal does not parse) may be
+	// absent on the implementation's side
+	if len(model.List) >= 1 && !model.List[0].IsList && model.List[0].Atom == "obj" && real.IsList && len(real.List) >= 1 && !real.List[0].IsList && real.List[0].Atom == "obj" {
+		realBy := map[string]hx.Sexp{}
+		for _, e := range real.List[1:] {
+			if e.IsList && len(e.List) == 2 && !e.List[0].IsList {
+				realBy[e.List[0].Atom] = e.List[1]
+			}
+		}
+		seen := 0
+		for _, e := range model.List[1:] {
+			if !e.IsList || len(e.List) != 2 || e.List[0].IsList {
+				return path + " (malformed object value)"
+			}
+			k := e.List[0].Atom
+			rv, ok := realBy[k]
+			if !ok {
+				if isWild(e.List[1]) {
+					continue
+				}
+				return path + "/obj (field " + k + " missing)"
+			}
+			seen++
+			if w := matchWild(e.List[1], rv, path+"/obj/"+k, st); w != "" {
+				return w
+			}
+		}
+		if seen != len(realBy) {
+			return path + "/obj (extra fields on the implementation's side)"
+		}
+		return ""
+	}
 	if len(model.List) != len(real.List) {
 		return path + " (length)"
 	}
@@ -587,7 +609,7 @@ func (h *harness) tieRoundTrip(bt *built, cd confDefault, path, text string) *fa
 	}
 	e := &extractor{ids: newIDAlloc(1), types: map[string]schema.NamedType{}}
 	ts := e.typ(cd.Typ)
-	vs := e.valOf(cd.Conf)
+	vs := e.valOfT(cd.Conf, cd.Typ)
 	if e.err != nil {
 		return nil
 	}
